@@ -1063,6 +1063,25 @@ func checkStateWriters(p *Prog, r *Report, ru *Rule, a *connectAnchors) {
 // checkNoticesDelivered: Errorf and Logf of the broker (and what they call)
 // cannot return without the line having been sent on the operator channel.
 func checkNoticesDelivered(p *Prog, r *Report, ru *Rule, a *connectAnchors) {
+	delivers := makeDelivers(func(fv *types.Var) bool { return fv == a.FOch })
+	for _, name := range []string{"Errorf", "Logf"} {
+		f := p.Func(iobPkg, "Broker", name)
+		if nil == f {
+			ru.Unproven("Broker."+name, token.NoPos, "not found")
+			continue
+		}
+		if delivers(f, 0) {
+			ru.OK(fnName(f), f.Pos(), "returns only after the line has been sent on the operator channel")
+		} else {
+			ru.Bad(fnName(f), f.Pos(), "%s can return without having sent its line on the operator channel (a timeout, a default arm or a cancellation arm beside the send): with a busy terminal a refusal or a closure notice is silently dropped", name)
+		}
+	}
+}
+
+// makeDelivers: "f cannot return without having sent on a channel kept in a
+// field for which isOch holds" (directly, in the chosen arm of a select, or
+// through a module function of which the same is true).
+func makeDelivers(isOch func(*types.Var) bool) func(f *ssa.Function, depth int) bool {
 	memo := map[*ssa.Function]int{} /* 1 = delivers on every path, 2 = may not */
 	var delivers func(f *ssa.Function, depth int) bool
 	delivers = func(f *ssa.Function, depth int) bool {
@@ -1075,7 +1094,7 @@ func checkNoticesDelivered(p *Prog, r *Report, ru *Rule, a *connectAnchors) {
 		memo[f] = 2
 		onOch := func(ch ssa.Value) bool {
 			fv, _ := fieldBehind(ch)
-			return nil != fv && fv == a.FOch
+			return nil != fv && isOch(fv)
 		}
 		/* Edges taken when a select's send on the channel was chosen. */
 		sent := map[Edge]bool{}
@@ -1125,16 +1144,5 @@ func checkNoticesDelivered(p *Prog, r *Report, ru *Rule, a *connectAnchors) {
 		}
 		return false
 	}
-	for _, name := range []string{"Errorf", "Logf"} {
-		f := p.Func(iobPkg, "Broker", name)
-		if nil == f {
-			ru.Unproven("Broker."+name, token.NoPos, "not found")
-			continue
-		}
-		if delivers(f, 0) {
-			ru.OK(fnName(f), f.Pos(), "returns only after the line has been sent on the operator channel")
-		} else {
-			ru.Bad(fnName(f), f.Pos(), "%s can return without having sent its line on the operator channel (a timeout, a default arm or a cancellation arm beside the send): with a busy terminal a refusal or a closure notice is silently dropped", name)
-		}
-	}
+	return delivers
 }
